@@ -58,6 +58,12 @@ func corruptions(c pcell) [][2]string {
 }
 
 func runC06(r *Report, rng *rand.Rand, thorough bool) {
+	// the wrapper templates as terms (Gen/Wrappers.v): the model's render against the real template engine
+	nT := 6
+	if thorough {
+		nT = 60
+	}
+	runTemplateCorrespondence(r, rng, nT)
 	lab, cells, err := buildParamsLab()
 	if err != nil {
 		r.Violate("lab_build_failed", err.Error(), nil)
